@@ -440,7 +440,7 @@ class RegexConst:
         return "re(%r, %d)" % (self.pattern, self.flags)
 
 
-def src(node, limit=120):
+def src(node, limit=4000):
     try:
         s = ast.unparse(node)
     except Exception:
